@@ -97,8 +97,11 @@ impl LocalSpan {
     {
         #[cfg(feature = "enable")]
         if let Some(LocalSpanInner { stack, span_handle }) = &self.inner {
+            // Evaluate the user closure before borrowing the span stack: it may use tracing
+            // itself (e.g. call a `#[trace]` function or log through a fastrace-aware logger).
+            let properties = properties();
             let span_stack = &mut *stack.borrow_mut();
-            span_stack.with_properties(span_handle, properties);
+            span_stack.with_properties(span_handle, || properties);
         }
 
         self
@@ -150,8 +153,17 @@ impl LocalSpan {
         {
             LOCAL_SPAN_STACK
                 .try_with(|s| {
-                    let span_stack = &mut s.borrow_mut();
-                    span_stack.add_properties(properties);
+                    // Evaluate the user closure without holding the borrow of the span stack (it
+                    // may use tracing itself), and only if the properties will be recorded.
+                    let recording = s
+                        .borrow_mut()
+                        .current_span_line()
+                        .map(|span_line| span_line.is_sampled())
+                        .unwrap_or(false);
+                    if recording {
+                        let properties = properties();
+                        s.borrow_mut().add_properties(|| properties);
+                    }
                     Some(())
                 })
                 .ok();
